@@ -7,7 +7,12 @@ from decimal import Decimal
 
 from btclib import fee as fee_mod
 from btclib.fee import FeeRate, dust_threshold, fee_from_vsize, package_fee
+from btclib.psbt.psbt import Psbt, prevouts
+from btclib.psbt.psbt_in import PsbtIn
+from btclib.script import ScriptPubKey
 from btclib.script.script_pub_key import is_segwit
+from btclib.tx import OutPoint, Tx, TxIn, TxOut
+from btclib.tx_builder import build_psbt
 
 from . import common
 from .common import hx, unhx
@@ -48,6 +53,94 @@ def _rate(r: int) -> FeeRate:
     return FeeRate(sats_per_kvbyte=r)
 
 
+KEY = "02c6047f9441ed7d6d3045406e95c07cd85c778e4b8cef3ca7abac09b95c709ee5"
+KEY2 = "02f9308a019258c31049344f85f89d5229b531c845836f99b08601f113bce036f9"
+PAY = ScriptPubKey.p2wpkh(KEY)
+
+
+def _fund_input(kind: str, value: int, i: int) -> PsbtIn:
+    """one spendable input map per script kind: w p2wpkh, t p2tr, s p2sh-p2wpkh, p p2pkh, u undetermined type."""
+    tx_id = bytes([i + 1]) * 32
+    if kind == "w":
+        return PsbtIn(witness_utxo=TxOut(value, PAY), previous_tx_id=tx_id, output_index=0)
+    if kind == "t":
+        return PsbtIn(witness_utxo=TxOut(value, ScriptPubKey.p2tr(KEY)), previous_tx_id=tx_id, output_index=0)
+    if kind == "s":
+        rs = PAY.script
+        return PsbtIn(witness_utxo=TxOut(value, ScriptPubKey.p2sh(rs)), previous_tx_id=tx_id, output_index=0,
+                      redeem_script=rs)
+    if kind == "p":
+        prev = Tx(vin=[TxIn(OutPoint(tx_id, 0))], vout=[TxOut(value, ScriptPubKey.p2pkh(KEY))])
+        return PsbtIn(non_witness_utxo=prev, previous_tx_id=prev.id, output_index=0)
+    if kind == "u":
+        return PsbtIn(witness_utxo=TxOut(value, b"\x51\x87"), previous_tx_id=tx_id, output_index=0)
+    raise ValueError(kind)
+
+
+def _csv(s):
+    return [] if s == "_" else s.split(",")
+
+
+class _Estimator:
+    """Observation / injection point on `Psbt.vsize_estimate` for the duration of one build_psbt call.
+
+    mode `real`: the real estimator runs and what it answered per psbt shape is recorded;
+    mode `fake`: the estimator is replaced by the op line's numbers (the theorems hold for any estimator)."""
+
+    def __init__(self, mode, n_out, e1, e2):
+        self.mode, self.n_out, self.e = mode, n_out, {n_out + 1: e1, n_out: e2}
+        self.seen = {}
+
+    def __enter__(self):
+        self.orig = Psbt.vsize_estimate
+        me = self
+
+        def patched(psbt, sizer=None):
+            n = len(psbt.outputs)
+            if me.mode == "real":
+                try:
+                    v = me.orig(psbt, sizer)
+                except Exception as e:  # noqa: BLE001
+                    me.seen[n] = "E" if common.err_class(e) == "value" else "X"
+                    raise
+                me.seen[n] = str(v)
+                return v
+            psbt.assert_valid()
+            tok = me.e.get(n, "NA")
+            me.seen[n] = tok
+            if tok == "E":
+                from btclib.exceptions import BTClibValueError
+                raise BTClibValueError("injected: no estimate")
+            return int(tok)
+        Psbt.vsize_estimate = patched
+        return self
+
+    def __exit__(self, *a):
+        Psbt.vsize_estimate = self.orig
+
+
+def _funding_call(t):
+    """-> (canonical line, FundedPsbt | None, estimator observations)"""
+    mode, ins, outs, rate, change, dust_rate, e1, e2 = t[1:9]
+    inputs = [_fund_input(x[0], int(x[1:]), i) for i, x in enumerate(_csv(ins))]
+    outputs = [TxOut(int(v), PAY) for v in _csv(outs)]
+    ch = None if change == "None" else unhx(change)
+    with _Estimator(mode, len(outputs), e1, e2) as est:
+        try:
+            built = build_psbt(inputs, outputs, _rate(int(rate)), ch, dust_fee_rate=_rate(int(dust_rate)))
+        except Exception as e:  # noqa: BLE001
+            c = common.err_class(e)
+            return "err " + (c if not c.startswith("foreign") else "foreign"), None, est
+    if mode == "real":
+        # the numbers the model was given must be the ones the real estimator answered
+        for n, tok in ((len(outputs) + 1, e1), (len(outputs), e2)):
+            if n in est.seen and est.seen[n] != tok:
+                return f"err estimator-mismatch {n}:{est.seen[n]}!={tok}", built, est
+    if built.change_index is not None and built.change_index != len(outputs):
+        return f"err change-index {built.change_index}", built, est
+    return f"ok {built.fee} {built.change if built.change_index is not None else 'None'}", built, est
+
+
 def impl(line: str) -> str:
     t = line.split(" ")
     op = t[0]
@@ -63,6 +156,8 @@ def impl(line: str) -> str:
         return common.call_impl(lambda: dust_threshold(unhx(t[1]), _rate(int(t[2]))))
     if op == "fee.is_segwit":
         return common.call_impl(lambda: is_segwit(unhx(t[1])))
+    if op == "funding.build":
+        return _funding_call(t)[0]
     return "bad-op"
 
 
@@ -143,7 +238,55 @@ def _o_fee_glue(w):
     return False, f"{kind}={bad!r} accepted: {out!r}"
 
 
+def _o_funding(w):
+    """FundedPsbt invariants read off the real objects: conservation, rate paid on the estimate of the
+    psbt returned, no dust change, change only where asked, refusal only when it must."""
+    t = w["line"].split(" ")
+    mode, ins, outs, rate, change, dust_rate = t[1:7]
+    line, built, est = _funding_call(t)
+    total_in = sum(int(x[1:]) for x in _csv(ins))
+    total_out = sum(int(v) for v in _csv(outs))
+    n_out = len(_csv(outs))
+    r, dr = _rate(int(rate)), _rate(int(dust_rate))
+    if built is None:
+        if not line.startswith("err value"):
+            return False, f"build_psbt left through {line}"
+        if total_out > 2_100_000_000_000_000 or "E" in est.seen.values():
+            return True, "refused upstream of the decision"
+        # a refusal must be one of: nothing paid, inputs short of outputs + owed, change above MAX_MONEY
+        last = est.seen.get(n_out)
+        if n_out == 0 and (change == "None" or last is None):
+            return True, "no outputs"
+        if last is not None and int(last) >= 0 and total_in - total_out < fee_from_vsize(int(last), r):
+            return True, "inputs do not cover"
+        first = est.seen.get(n_out + 1)
+        if first is not None and int(first) < 0 or last is not None and int(last) < 0:
+            return True, "negative injected estimate refused by fee_from_vsize"
+        if first is not None and change != "None":
+            ch = total_in - total_out - fee_from_vsize(int(first), r)
+            if ch >= dust_threshold(unhx(change), dr) and total_out + ch > 2_100_000_000_000_000:
+                return True, "change above MAX_MONEY"
+        return False, f"refused without cause: {w['line'][:200]} seen={est.seen}"
+    psbt = built.psbt
+    vout = [o.value for o in psbt.tx.vout]
+    spent = sum(p.value for p in prevouts(psbt))
+    ok = spent == total_in == sum(vout) + built.fee
+    ok = ok and vout[:n_out] == [int(v) for v in _csv(outs)]
+    if mode == "real":
+        ok = ok and built.fee >= fee_from_vsize(psbt.vsize_estimate(), r)
+    else:
+        ok = ok and built.fee >= fee_from_vsize(int(est.seen[len(psbt.outputs)]), r)
+    if built.change_index is None:
+        ok = ok and len(vout) == n_out and built.change == 0
+    else:
+        ok = ok and change != "None" and len(vout) == n_out + 1 and built.change_index == n_out
+        ok = ok and vout[-1] == built.change >= dust_threshold(unhx(change), dr)
+        ok = ok and psbt.tx.vout[-1].script_pub_key.script == unhx(change)
+    return ok, f"{line} vout={vout} in={total_in} seen={est.seen}"
+
+
 ORACLES = {
+    "funding.invariants": _o_funding,
     "fee.ceiling": _o_fee_ceiling,
     "fee.monotone": _o_fee_monotone,
     "fee.package": _o_package,
@@ -216,5 +359,79 @@ def _run_fee(ctx):
     ctx.check("fee.glue", {"kind": "positional_rate", "bad": "bool"})
 
 
+def _learn_estimates(kinds_values, outs, change):
+    """ask the real estimator (through build_psbt's own construction) for both psbt shapes."""
+    toks = []
+    for with_change in (True, False):
+        if with_change and change == "None":
+            toks.append("NA")
+            continue
+        t = ["funding.build", "real", kinds_values, outs, "0", change if with_change else "None", "0", "NA", "NA"]
+        _, _, est = _funding_call(t)
+        n = len(_csv(outs)) + (1 if with_change else 0)
+        toks.append(est.seen.get(n, "NA"))
+    return toks
+
+
+def _run_funding(ctx):
+    rng = ctx.rng
+    M = 2_100_000_000_000_000
+    change_scripts = [PAY.script, ScriptPubKey.p2tr(KEY2).script, ScriptPubKey.p2pkh(KEY2).script,
+                      ScriptPubKey.p2sh(PAY.script).script, b"\x6a\x01\x00", b"", bytes([0x51]) * 300]
+    lines = []
+    for _ in range(ctx.n(1500, 20000)):
+        mode = "real" if rng.random() < 0.55 else "fake"
+        kinds = "".join(rng.choice("wwtsp") for _ in range(rng.choice([1, 1, 2, 3, 5])))
+        if rng.random() < 0.04:
+            kinds += "u"
+        n_out = rng.choice([0, 1, 1, 1, 2, 3])
+        out_vals = [rng.choice([0, 546, 1000, 60_000, rng.randrange(0, 200_000)]) for _ in range(n_out)]
+        change = "None" if rng.random() < 0.25 else hx(rng.choice(change_scripts))
+        rate = rng.choice([0, 1, 999, 1000, 1001, 2500, 10_000, 123_456, G._nat(rng, 24)])
+        dust_rate = rng.choice([3000, 3000, 0, 1, 1000, 30_000])
+        in_vals = [rng.randrange(1000, 150_000) for _ in kinds]
+        outs = ",".join(map(str, out_vals)) or "_"
+        if mode == "real":
+            e1, e2 = _learn_estimates(",".join(k + "1000" for k in kinds), outs, change)
+        else:
+            e1 = rng.choice(["E", str(rng.randrange(-3, 3))] + [str(rng.randrange(50, 2000))] * 6)
+            e2 = rng.choice(["E", str(rng.randrange(-3, 3))] + [str(rng.randrange(50, 2000))] * 6)
+            if change == "None":
+                e1 = "NA"
+        # aim the remainder at the decision boundaries: dust threshold ± 1, owed ± 1, nothing left
+        if e1 not in ("E", "NA", "X") and e2 not in ("E", "NA", "X") and rng.random() < 0.7 and int(e2) >= 0 \
+                and (change == "None" or int(e1) >= 0):
+            owed = fee_from_vsize(int(e2), _rate(rate))
+            if change != "None":
+                f1 = fee_from_vsize(int(e1), _rate(rate))
+                d = dust_threshold(unhx(change), _rate(dust_rate))
+                target = sum(out_vals) + rng.choice([f1 + d, f1 + d - 1, f1 + d + 1, owed, owed - 1, owed + 1, f1, 0])
+            else:
+                target = sum(out_vals) + rng.choice([owed, owed - 1, owed + 1, 0, owed + 5000])
+            target = max(target, len(kinds))
+            in_vals = [target // len(kinds)] * len(kinds)
+            in_vals[0] += target - sum(in_vals)
+            if max(in_vals) > M:      # a fee no input could hold: every input at MAX_MONEY instead
+                in_vals = [M] * len(kinds)
+        elif rng.random() < 0.06:
+            in_vals = [rng.choice([M, M - 1, M // 2 + 1]) for _ in kinds]   # sums above MAX_MONEY
+            if rng.random() < 0.5 and out_vals:
+                out_vals[0] = M - rng.randrange(0, 2000)
+                outs = ",".join(map(str, out_vals))
+        ins = ",".join(k + str(v) for k, v in zip(kinds, in_vals))
+        line = f"funding.build {mode} {ins} {outs} {rate} {change} {dust_rate} {e1} {e2}"
+        lines.append(line)
+        ctx.check("funding.invariants", {"line": line})
+    outs_ = ctx.stream("funding.build", lines)
+    for ln in lines:
+        o = impl(ln)
+        ctx.count("funding.outcome", "change" if o.startswith("ok") and not o.endswith("None")
+                  else "no-change" if o.startswith("ok") else "refused")
+    for cls in ("change", "no-change", "refused"):
+        if not ctx.hist.get("funding.outcome", {}).get(cls):
+            raise common.HarnessError(f"funding generator left class {cls} empty")
+
+
 def run(ctx):
     _run_fee(ctx)
+    _run_funding(ctx)
